@@ -19,8 +19,8 @@ RULE = ("explicit-state BFS over histories of <= 7 (quick) / <= 9 (thorough) ope
         "transition replays the whole history on the real generator")
 ASSUMPTIONS = [
     "datetime.utcnow is served by a virtual clock substituted in bromelia._internal_utils (module global)",
-    "a history starts from the import-time state by re-running the module's own SessionHandler() call with the "
-    "virtual clock far beyond every earlier history",
+    "a history starts from the import-time state by re-running the module's own SessionHandler() call; the "
+    "virtual clock stays inside the range in which seconds-since-1900 fit 32 bits (until 2036-02-07)",
     "the search is depth-bounded (the counter makes the state space infinite); the bound is reported",
     "the generator is consulted from one thread (concurrent generation is not part of the statement's quantifier)",
 ]
@@ -81,7 +81,9 @@ def fresh():
     install_clock()
     _HISTORY_NO[0] += 1
     st = GenState()
-    st.t0 = real.datetime(2030, 1, 1) + real.timedelta(seconds=10000 * _HISTORY_NO[0])
+    # every history starts at the same virtual instant (well inside the 32-bit range of seconds since 1900,
+    # which ends on 2036-02-07); uniqueness is judged within a history, which is one process lifetime
+    st.t0 = real.datetime(2030, 1, 1) + real.timedelta(seconds=_HISTORY_NO[0] % 977)
     CLOCK.now = st.t0
     IU.SessionHandler()          # the module's own initialisation
     return st
